@@ -429,3 +429,26 @@ Proof. intros a b H. injection H as H. apply nat_string_inj. exact H. Qed.
 Lemma heap_name_eq : forall n, ("#" ++ nat_string n)%string = heap_name n.
 Proof. reflexivity. Qed.
 End HeapNames.
+
+(* ---------------- names built from a symbolic prefix ---------------- *)
+Lemma append_eqb_l : forall p a b, String.eqb (p ++ a) (p ++ b) = String.eqb a b.
+Proof.
+  induction p as [|c p IH]; intros a b; cbn [append]; [reflexivity|].
+  cbn [String.eqb]. rewrite Ascii.eqb_refl. apply IH.
+Qed.
+Lemma append_inj_l : forall p a b, (p ++ a)%string = (p ++ b)%string -> a = b.
+Proof. intros p a b H. apply String.eqb_eq. rewrite <- (append_eqb_l p). apply String.eqb_eq. exact H. Qed.
+Lemma append_assoc_s : forall a b c : string, ((a ++ b) ++ c)%string = (a ++ (b ++ c))%string.
+Proof. induction a as [|x a IH]; intros b c; cbn [append]; [reflexivity|]. now rewrite IH. Qed.
+(* two names whose first characters differ are different, whatever follows *)
+Lemma first_char_neq : forall c1 c2 r1 r2, Ascii.eqb c1 c2 = false -> String.eqb (String c1 r1) (String c2 r2) = false.
+Proof. intros c1 c2 r1 r2 H. cbn [String.eqb]. now rewrite H. Qed.
+(* lookups in memories / association lists at names with a common symbolic prefix *)
+Lemma mget_mset_prefix_other : forall m p a b o, a <> b -> mget (mset m (p ++ a) o) (p ++ b) = mget m (p ++ b).
+Proof. intros m p a b o H. apply mget_mset_other. intro E. apply H. eapply append_inj_l. exact E. Qed.
+Lemma z_string_inj_nonneg : forall a b, 0 <= a -> 0 <= b -> z_string a = z_string b -> a = b.
+Proof.
+  intros a b Ha Hb H. unfold z_string in H.
+  destruct (a <? 0) eqn:Ea; [apply Z.ltb_lt in Ea; lia|]. destruct (b <? 0) eqn:Eb; [apply Z.ltb_lt in Eb; lia|].
+  apply nat_string_inj in H. lia.
+Qed.
